@@ -2178,7 +2178,7 @@ class Canon:
             return out
         return block(stmts)
 
-    def _project_helper_objects(self, stmts, module):
+    def _project_helper_objects(self, stmts, module, whole=None):
         """x = _Helper(a, b)  with _Helper a private dataclass the tables do not know (a record introduced by a refactoring):
         x.field is the constructor argument, x[k] / x.m(k) the one-line accessor with the fields written in.  All or nothing: if x is
         used in any other way the statements are left alone."""
@@ -2229,6 +2229,8 @@ class Canon:
             ok = [True]
             canon = self
 
+            depth = [0]
+
             def accessor_body(mname, args):
                 m = c.methods.get(mname)
                 if m is None or m.decorator_list:
@@ -2237,6 +2239,19 @@ class Canon:
                 ps = [a.arg for a in m.args.args]
                 if len(ps) != len(args) + 1:
                     return None
+                class Pre(ast.NodeTransformer):
+                    def visit_Call(self, node):
+                        # one accessor asking another of the same record
+                        if isinstance(node.func, ast.Attribute) and isinstance(node.func.value, ast.Name) and node.func.value.id == ps[0] and not node.keywords \
+                                and node.func.attr in c.methods and node.func.attr != mname and depth[0] < 3:
+                            depth[0] += 1
+                            inner = accessor_body(node.func.attr, [self.visit(a) for a in node.args])
+                            depth[0] -= 1
+                            if inner is not None:
+                                return inner
+                        return self.generic_visit(node)
+                if any(isinstance(n, ast.Call) and isinstance(n.func, ast.Attribute) and isinstance(n.func.value, ast.Name) and n.func.value.id == ps[0] for x in b_ for n in ast.walk(x)):
+                    b_ = [Pre().visit(copy.deepcopy(x)) for x in b_]
                 if len(b_) == 1 and isinstance(b_[0], ast.Return) and b_[0].value is not None:
                     e = copy.deepcopy(b_[0].value)
                 else:
@@ -2252,6 +2267,7 @@ class Canon:
                         if isinstance(node.value, ast.Name) and node.value.id == ps[0] and node.attr in vals and isinstance(node.ctx, ast.Load):
                             return copy.deepcopy(vals[node.attr])
                         return self.generic_visit(node)
+
                 e = SelfProj().visit(e)
                 if any(isinstance(n, ast.Name) and n.id == ps[0] for n in ast.walk(e)):
                     return None
@@ -2295,7 +2311,27 @@ class Canon:
                 new = stmts[:i] + rest
                 for n_ in new:
                     ast.fix_missing_locations(n_)
-                return self._project_helper_objects(new, module)
+                return self._project_helper_objects(new, module, None if whole is None else whole)
+        # records filed inside a branch: where the branch ends the function (nothing of them flows out of it), or where the record's
+        # name is written once in the whole function and read only after that in the same branch
+        whole = whole if whole is not None else stmts
+
+        def local_to(bb, x, i):
+            loads = sum(1 for b_ in whole for n in ast.walk(b_) if isinstance(n, ast.Name) and n.id == x and isinstance(n.ctx, ast.Load))
+            stores = sum(1 for b_ in whole for n in ast.walk(b_) if isinstance(n, ast.Name) and n.id == x and not isinstance(n.ctx, ast.Load))
+            here = sum(1 for b_ in bb[i + 1:] for n in ast.walk(b_) if isinstance(n, ast.Name) and n.id == x and isinstance(n.ctx, ast.Load))
+            return stores == 1 and loads == here
+        for s_ in stmts:
+            if isinstance(s_, ast.If):
+                for fld in ("body", "orelse"):
+                    bb = getattr(s_, fld)
+                    if not bb:
+                        continue
+                    if norm._leaves_function(bb) or (len(bb) == 1 and isinstance(bb[0], ast.If)) or all(
+                            local_to(bb, x_.targets[0].id, i_) for i_, x_ in enumerate(bb) if isinstance(x_, ast.Assign) and len(x_.targets) == 1
+                            and isinstance(x_.targets[0], ast.Name) and isinstance(x_.value, ast.Call) and isinstance(x_.value.func, ast.Name)
+                            and x_.value.func.id in module.classes and x_.value.func.id.startswith("_")):
+                        setattr(s_, fld, self._project_helper_objects(bb, module, whole))
         return stmts
 
     def _inline_class_constants(self, stmts, cls):
@@ -3066,6 +3102,32 @@ class Canon:
                             return explicit_super(m_, k_), True, prep
                         break
                 return None
+            if isinstance(f, ast.Attribute) and isinstance(f.value, ast.Name) and f.value.id in module.classes and f.value.id.startswith("_") \
+                    and f"class:{f.value.id}" not in known and f.value.id not in local_types and f.attr not in keep:
+                # _Helper.make(..): a class / static method of a private class the tables do not know (the receiver written as the class)
+                k_ = module.classes[f.value.id]
+                kd, m = k_.find_method(f.attr)
+                decos = [u(d) for d in m.decorator_list] if m is not None else []
+                if decos == ["classmethod"]:
+                    return m, True, prep
+                if decos == ["staticmethod"]:
+                    return m, False, prep
+                return None
+            if isinstance(f, ast.Attribute) and isinstance(f.value, ast.Subscript) and isinstance(f.value.value, ast.Name) and f.value.value.id == "self" \
+                    and cls is not None and f.attr.startswith("_") and not f.attr.startswith("__") and f.attr not in keep and norm.is_pure(f.value.slice, _PURE_EXT):
+                # self[k]._m(..): the element class is the one __getitem__ is annotated to return; _m a private method of it the tables
+                # do not know
+                _, gi_ = cls.find_method("__getitem__")
+                try:
+                    ek = module.resolve(gi_.returns) if gi_ is not None and gi_.returns is not None else None
+                except Exception:
+                    ek = None
+                from .model import Class as _Class
+                if isinstance(ek, _Class):
+                    kd, m = ek.find_method(f.attr)
+                    if m is not None and not m.decorator_list and not any(f"{b_.name}.{f.attr}" in known for b_ in ek.mro):
+                        return explicit_super(m, kd), True, prep
+                    return None
             if isinstance(f, ast.Attribute) and isinstance(f.value, ast.Name) and (
                     (f.value.id == "self" and cls is not None) or f.value.id in local_types):
                 k = cls if f.value.id == "self" else local_types[f.value.id]
@@ -3558,6 +3620,7 @@ class Canon:
         b = self.expand_replace(b, module)
         b = self.sroa_value_records(b, module)
         b = norm.thread_none_flags(b)           # a decision recorded in `v is None` and asked again straight afterwards
+        b = lift_ifexp(self._project_helper_objects(b, module))      # (a record filed in each branch, read by the arm that was moved there)
         b = norm.fold_none_tests(b)             # `if count is not None` on a count a helper just computed
         b = self.thread_sentinels(b, module)
         b = self.fold_enum_tests(b, module)
